@@ -228,7 +228,7 @@ Section Tail.
              | None => Ok [] end) (fun dl_stmts =>
       let st := fold_left (fun s e => add_entry e s) dl_stmts st in
       rbind (match m_download m with
-             | Some d => Ok (add_dldir srcdir (dl_tagfile d srcdir) st, None)
+             | Some d => Ok (st, None)
              | None => rmap (fun sx => (st, containing_path (ls_dldirs st) sx)) (expand_eval EV flat PIgnore srcdir)
              end) (fun '(st, src_tagfile) =>
       step_tail rules ms gdeps objdir bn an m mdeps srcdir flat st src_tagfile)))
@@ -319,8 +319,7 @@ Section TailSim.
     set (r0 := fold_left (fun s e => add_entry e s) dl_stmts r) in *.
     clearbody s0 r0.
     destruct (m_download m) as [d|].
-    - cbn [rbind]. intros HT. apply (step_tail_sim _ _ _ _ _ _ _ _ _ _ _ _ _ _ HT); [|exact HR].
-      apply sim_add_dldir, HS0.
+    - cbn [rbind]. intros HT. exact (step_tail_sim _ _ _ _ _ _ _ _ _ _ _ _ _ _ HT HS0 HR).
     - rewrite (proj1 (proj2 (proj2 HS0))).
       unfold rmap. destruct (expand_eval EV flat PIgnore srcdir) as [sx| | |]; cbn [rbind]; try discriminate.
       intros HT. exact (step_tail_sim _ _ _ _ _ _ _ _ _ _ _ _ _ _ HT HS0 HR).
@@ -422,7 +421,7 @@ Section DepFrame.
     cbv zeta.
     destruct (m_download m) as [d|].
     - cbn [rbind]. intros HT. apply step_tail_dframe in HT. intros n Hn. rewrite (HT n Hn).
-      unfold add_dldir. cbn [ls_depfiles]. rewrite fold_entries_depfiles. reflexivity.
+      rewrite fold_entries_depfiles. reflexivity.
     - unfold rmap. destruct (expand_eval EV flat PIgnore srcdir) as [sx| | |]; cbn [rbind]; try discriminate.
       intros HT. apply step_tail_dframe in HT. intros n Hn. rewrite (HT n Hn), fold_entries_depfiles. reflexivity.
   Qed.
@@ -527,7 +526,7 @@ Section TwoRuns.
     split.
     - destruct (module_step_download H EV _ _ _ _ _ _ _ _ _ _ _ _ Ha) as (_ & Da & _).
       destruct (module_step_download H EV _ _ _ _ _ _ _ _ _ _ _ _ Hb) as (_ & Db & _).
-      rewrite Da, Db. unfold dl_after. rewrite Rs, Rd, Id. reflexivity.
+      rewrite Da, Db. exact Id.
     - intros n Hn. destruct (str_eqb n (m_name m)) eqn:En.
       + apply str_eqb_eq in En. subst n. exact (proj2 (Hout Hn)).
       + apply str_eqb_neq in En.
@@ -553,16 +552,16 @@ Section TwoRuns.
   (* Two runs of the module loop of a build whose build orders are related position by position:
      for a module outside U, at any position, the SAME list of statements (and objects) is emitted in
      both runs; every one of these statements is in the statement set of both builds. *)
-  Theorem loop_statements_frame l l' fa fb pre a post :
+  Theorem loop_statements_frame dirs l l' fa fb pre a post :
     Forall2 R l l' ->
-    loop_a l {| ls_entries := []; ls_objects := []; ls_depfiles := []; ls_dldirs := [] |} = Ok fa ->
-    loop_b l' {| ls_entries := []; ls_objects := []; ls_depfiles := []; ls_dldirs := [] |} = Ok fb ->
+    loop_a l {| ls_entries := []; ls_objects := []; ls_depfiles := []; ls_dldirs := dirs |} = Ok fa ->
+    loop_b l' {| ls_entries := []; ls_objects := []; ls_depfiles := []; ls_dldirs := dirs |} = Ok fb ->
     l = pre ++ a :: post -> ~ U (m_name (fst (fst a))) ->
     exists pre' post' sa0 sa1 sb0 sb1 L O,
       l' = pre' ++ a :: post' /\ length pre' = length pre /\
-      loop_a pre {| ls_entries := []; ls_objects := []; ls_depfiles := []; ls_dldirs := [] |} = Ok sa0 /\
+      loop_a pre {| ls_entries := []; ls_objects := []; ls_depfiles := []; ls_dldirs := dirs |} = Ok sa0 /\
       module_step H EV rules merge_opts ms gdeps objdir bn an sa0 a = Ok sa1 /\
-      loop_b pre' {| ls_entries := []; ls_objects := []; ls_depfiles := []; ls_dldirs := [] |} = Ok sb0 /\
+      loop_b pre' {| ls_entries := []; ls_objects := []; ls_depfiles := []; ls_dldirs := dirs |} = Ok sb0 /\
       module_step H EV rules merge_opts ms' gdeps' objdir bn an sb0 a = Ok sb1 /\
       emits sa0 sa1 L O /\ emits sb0 sb1 L O /\
       forall q, In q L -> has_text fa q /\ has_text fb q.
@@ -575,8 +574,8 @@ Section TwoRuns.
     cbn [fold_left rbind] in Hra, Hrb.
     destruct (module_step H EV rules merge_opts ms gdeps objdir bn an sa0 a) as [sa1| | |] eqn:Ea; try (kill_fold Hra post).
     destruct (module_step H EV rules merge_opts ms' gdeps' objdir bn an sb0 b) as [sb1| | |] eqn:Eb; try (kill_fold Hrb post').
-    assert (HI0 : I {| ls_entries := []; ls_objects := []; ls_depfiles := []; ls_dldirs := [] |}
-                    {| ls_entries := []; ls_objects := []; ls_depfiles := []; ls_dldirs := [] |}) by (split; [reflexivity|intros; reflexivity]).
+    assert (HI0 : I {| ls_entries := []; ls_objects := []; ls_depfiles := []; ls_dldirs := dirs |}
+                    {| ls_entries := []; ls_objects := []; ls_depfiles := []; ls_dldirs := dirs |}) by (split; [reflexivity|intros; reflexivity]).
     pose proof (loop_two _ _ Hpre _ _ _ _ HI0 Hpa Hpb) as HI.
     destruct (step_two _ _ _ _ _ _ HI Hab Ea Eb) as [_ Hem]. destruct (Hem Hnu) as (L & O & Ema & Emb).
     assert (Eba : b = a).
@@ -588,5 +587,13 @@ Section TwoRuns.
     intros q Hq. split.
     - apply (has_text_ext sa1); [exact (proj1 (loop_ext H EV _ _ _ _ _ _ _ _ _ _ Hra))|exact (emits_text _ _ _ _ _ Ema Hq)].
     - apply (has_text_ext sb1); [exact (proj1 (loop_ext H EV _ _ _ _ _ _ _ _ _ _ Hrb))|exact (emits_text _ _ _ _ _ Emb Hq)].
+  Qed.
+  (* related build orders have the same table of download directories *)
+  Lemma R_dldirs_all : forall l l', Forall2 R l l' -> dldirs_all l' = dldirs_all l.
+  Proof.
+    intros l l' HF. unfold dldirs_all. generalize (@nil (str * str)).
+    induction HF as [|a b l l' Hab _ IH]; intros acc; cbn [fold_left]; [reflexivity|].
+    destruct a as [[m menv] mdeps], b as [[m' menv'] mdeps']. destruct Hab as (_ & Rs & Rd & _). cbn [fst].
+    rewrite Rs, Rd. apply IH.
   Qed.
 End TwoRuns.
